@@ -295,6 +295,12 @@ func shardC05(c *Ctx, shard, nshards int) {
 				desc += fmt.Sprintf(" snapped-to-node%v", node)
 			}
 		}
+		if r.P(0.3) {
+			// asking a renderer to describe its job for another part (what the file writers do before they render) must not
+			// leave anything behind for the next render
+			other, _ := sdf.Sphere3D(r.LogR(0.01, 100))
+			_ = rd.Info(sdf.Transform3D(other, sdf.Translate3d(v3.Vec{X: r.R(-50, 50), Y: r.R(-50, 50), Z: r.R(-50, 50)})))
+		}
 		ts := render.ToTriangles(s, rd)
 		c.Eval(1)
 		if len(ts) == 0 {
